@@ -71,6 +71,13 @@ pub fn scenarios(quick: bool) -> Vec<Scenario> {
         programs: vec![vec![], s(&["increment k", "remove k"]), s(&["increment k"])],
         sub_keys: vec!["k"],
     });
+    // a write that stores the value the key already holds is a mutation like any other
+    out.push(Scenario {
+        name: "same-value-rewritten",
+        setup: Setup { strategy: "none", init: s(&["set k a1"]), session_init: vec![vec![tok(), "watch k".into()], vec![tok()], vec![tok()]], check_replica: false },
+        programs: vec![vec![], s(&["set k a1", "set-safe k 9 a1"]), s(&["set k a2", "set k a2"])],
+        sub_keys: vec!["k"],
+    });
     // writes that arrive over a replication link (an administrator session issuing replicate*)
     let link = || vec![format!("auth {} {}", USER, PWD)];
     out.push(Scenario {
@@ -148,6 +155,8 @@ fn judge(sc: &Scenario, ops: &[OpRec], sub_msgs: &[String], probe: &[(String, bo
         let mut removed_may = 0i64;
         let mut inc_must = 0i64;
         let mut inc_may = 0i64;
+        // value -> (must be notified, may be notified, accepted outside the subscription, refused, the writes)
+        let mut per_value: std::collections::BTreeMap<String, (i64, i64, i64, i64, Vec<String>)> = Default::default();
         for o in ops.iter() {
             // a write arriving over a replication link is a mutation like any other
             let norm: String = {
@@ -170,24 +179,14 @@ fn judge(sc: &Scenario, ops: &[OpRec], sub_msgs: &[String], probe: &[(String, bo
             let may = ok && !must && c < u_ret && r > w_call;
             match cmd {
                 "set" | "set-safe" => {
-                    let val = o.line.rsplit(' ').next().unwrap();
-                    let n_changed = sub_msgs.iter().filter(|m| **m == format!("changed {} {}\n", key, val)).count() as i64;
-                    let n_ver = sub_msgs.iter().filter(|m| m.starts_with(&format!("changed-version {} ", key)) && m.ends_with(&format!(" {}\n", val))).count() as i64;
-                    if n_changed != n_ver {
-                        return Some(Judged { clause: "unpaired-notification".into(), detail: format!("`{}`: {} changed vs {} changed-version lines; stream {:?}", o.line, n_changed, n_ver, sub_msgs) });
-                    }
-                    if !ok && n_changed > 0 {
-                        return Some(Judged { clause: "notified-refused-write".into(), detail: format!("`{}` was refused ({}) but the subscriber got {:?}", o.line, o.resp, sub_msgs) });
-                    }
-                    if must && n_changed != 1 {
-                        return Some(Judged { clause: if n_changed == 0 { "missed-notification".into() } else { "duplicate-notification".into() }, detail: format!("`{}` [{}..{}] committed while subscribed (watch returned {}, unsubscribe began {}) but was notified {} times; stream {:?}", o.line, c, r, w_ret, u_call, n_changed, sub_msgs) });
-                    }
-                    if may && n_changed > 1 {
-                        return Some(Judged { clause: "duplicate-notification".into(), detail: format!("`{}` notified {} times; stream {:?}", o.line, n_changed, sub_msgs) });
-                    }
-                    if ok && !must && !may && n_changed > 0 {
-                        return Some(Judged { clause: "notified-outside-subscription".into(), detail: format!("`{}` [{}..{}] ran outside the subscription (watch {}..{}, unsubscribe {}..{}) but was notified; stream {:?}", o.line, c, r, w_call, w_ret, u_call, u_ret, sub_msgs) });
-                    }
+                    // writes are tallied per value: two writes may carry the same value
+                    let val = o.line.rsplit(' ').next().unwrap().to_string();
+                    let e = per_value.entry(val).or_insert((0i64, 0i64, 0i64, 0i64, vec![]));
+                    e.0 += must as i64;
+                    e.1 += may as i64;
+                    e.2 += (ok && !must && !may) as i64;
+                    e.3 += (!ok) as i64;
+                    e.4.push(format!("`{}` [{}..{}] -> {}", o.line, c, r, o.resp));
                 }
                 "remove" => {
                     removed_must += must as i64;
@@ -198,6 +197,23 @@ fn judge(sc: &Scenario, ops: &[OpRec], sub_msgs: &[String], probe: &[(String, bo
                     inc_may += may as i64;
                 }
                 _ => {}
+            }
+        }
+        for (val, (must, may, _outside, refused, writes)) in per_value.iter() {
+            let n_changed = sub_msgs.iter().filter(|m| **m == format!("changed {} {}\n", key, val)).count() as i64;
+            let n_ver = sub_msgs.iter().filter(|m| m.starts_with(&format!("changed-version {} ", key)) && m.ends_with(&format!(" {}\n", val))).count() as i64;
+            let ctx = format!("writes of {:?}: {:?}; subscription: watch returned {}, unsubscribe began {}; stream {:?}", val, writes, w_ret, u_call, sub_msgs);
+            if n_changed != n_ver {
+                return Some(Judged { clause: "unpaired-notification".into(), detail: format!("{} changed vs {} changed-version lines; {}", n_changed, n_ver, ctx) });
+            }
+            if *must + *may == 0 && n_changed > 0 {
+                return Some(Judged { clause: if *refused > 0 && *_outside == 0 { "notified-refused-write".into() } else { "notified-outside-subscription".into() }, detail: format!("notified {} times; {}", n_changed, ctx) });
+            }
+            if n_changed < *must {
+                return Some(Judged { clause: "missed-notification".into(), detail: format!("{} write(s) committed while subscribed but {} notification(s); {}", must, n_changed, ctx) });
+            }
+            if n_changed > *must + *may {
+                return Some(Judged { clause: "duplicate-notification".into(), detail: format!("at most {} write(s) could be notified but {} notification(s); {}", must + may, n_changed, ctx) });
             }
         }
         let n_removed = sub_msgs.iter().filter(|m| **m == format!("removed {}\n", key)).count() as i64;
